@@ -87,3 +87,115 @@ Proof.
   unfold write_excel_ledger, do_open, do_close, held, l0.
   destruct f as [j|]; [destruct (Nat.ltb j n)|]; destruct owns; cbn [opened closed caller_closed]; repeat split; try lia; discriminate.
 Qed.
+
+(* ---------------- load_files over several locations ---------------- *)
+(* the ledger relative to earlier, finished readers: nothing held unless suspended *)
+Definition hinv (r : reader) (s : gstate) (l : ledger) : Prop :=
+  caller_closed l = 0 /\ closed l <= opened l /\
+  match s with
+  | Suspended k => held l = (if r_owns r then 1 else 0) /\ k <= r_blocks r /\ 0 < k
+  | _ => held l = 0
+  end.
+
+Lemma advance_hinv r k l :
+  caller_closed l = 0 -> closed l <= opened l -> held l = (if r_owns r then 1 else 0) -> k <= r_blocks r ->
+  let '(s', l', o) := advance r k l in hinv r s' l' /\ (o = Yielded \/ s' = Finished).
+Proof.
+  intros C LE H K. unfold advance. destruct (Nat.eqb_spec k (r_blocks r)).
+  - split; [|now right]. unfold hinv, do_close, held in *. destruct (r_owns r); cbn [opened closed caller_closed] in *; repeat split; try lia.
+  - assert (S k <= r_blocks r) by lia.
+    destruct (r_fault r) as [f|]; [destruct (Nat.eqb f k)|]; (split; [|auto]);
+      unfold hinv, do_close, held in *; destruct (r_owns r); cbn [opened closed caller_closed] in *; repeat split; try lia.
+Qed.
+
+Lemma gstep_hinv r s l e :
+  hinv r s l -> let '(s', l', o) := gstep r s l e in hinv r s' l' /\ (e = GNext -> o = Yielded \/ s' = Finished) /\ (e <> GNext -> s' = Finished).
+Proof.
+  intros (C & LE & H). destruct s as [|k|]; destruct e; cbn [gstep].
+  - pose proof (advance_hinv r 0 (do_open r l)) as A.
+    assert (caller_closed (do_open r l) = 0 /\ closed (do_open r l) <= opened (do_open r l) /\
+            held (do_open r l) = (if r_owns r then 1 else 0)) as (A1 & A2 & A3)
+      by (unfold do_open, held in *; destruct (r_owns r); cbn [opened closed caller_closed]; lia).
+    specialize (A A1 A2 A3 ltac:(lia)). destruct (advance r 0 (do_open r l)) as [[s' l'] o]. destruct A as [A B].
+    split; [exact A|]. split; [intros _; exact B|intro N; contradiction].
+  - split; [unfold hinv; cbn [opened closed caller_closed]; tauto|]. split; [discriminate|reflexivity].
+  - split; [unfold hinv; cbn [opened closed caller_closed]; tauto|]. split; [discriminate|reflexivity].
+  - destruct H as (H1 & H2 & H3). pose proof (advance_hinv r k l C LE H1 H2) as A.
+    destruct (advance r k l) as [[s' l'] o]. destruct A as [A B]. split; [exact A|]. split; [intros _; exact B|intro N; contradiction].
+  - destruct H as (H1 & H2 & H3). split; [|split; [discriminate|reflexivity]].
+    unfold hinv, do_close, held in *. destruct (r_owns r); cbn [opened closed caller_closed] in *; repeat split; lia.
+  - destruct H as (H1 & H2 & H3). split; [|split; [discriminate|reflexivity]].
+    unfold hinv, do_close, held in *. destruct (r_owns r); cbn [opened closed caller_closed] in *; repeat split; lia.
+  - split; [unfold hinv; auto|]. split; [intros _; now right|reflexivity].
+  - split; [unfold hinv; auto|]. split; [discriminate|reflexivity].
+  - split; [unfold hinv; auto|]. split; [discriminate|reflexivity].
+Qed.
+
+Definition linv (rs : list reader) (s : gstate) (l : ledger) : Prop :=
+  match rs with
+  | [] => caller_closed l = 0 /\ closed l <= opened l /\ held l = 0
+  | r :: _ => hinv r s l
+  end.
+
+Lemma hinv_finished_next r r' l : hinv r Finished l -> hinv r' Fresh l.
+Proof. unfold hinv. tauto. Qed.
+
+Lemma lnext_linv rs : forall s l, linv rs s l -> let '(rs', s', l', _) := lnext rs s l in linv rs' s' l'.
+Proof.
+  induction rs as [|r rest IH]; intros s l H; cbn [lnext].
+  - exact H.
+  - cbn [linv] in H. pose proof (gstep_hinv r s l GNext H) as G.
+    destruct (gstep r s l GNext) as [[s' l'] o]. destruct G as (G1 & G2 & _). specialize (G2 eq_refl).
+    assert (o <> Yielded -> linv rest Fresh l') as NextOk.
+    { intro N. destruct G2 as [E|E]; [contradiction|]. subst s'. destruct rest as [|r' rest']; cbn [linv].
+      - unfold hinv in G1. tauto.
+      - exact (hinv_finished_next r r' l' G1). }
+    destruct o.
+    + exact G1.
+    + specialize (IH Fresh l' (NextOk ltac:(discriminate))). exact IH.
+    + cbn [linv]. destruct G2 as [C|E]; [discriminate|]. subst s'. unfold hinv in G1. tauto.
+    + specialize (IH Fresh l' (NextOk ltac:(discriminate))). exact IH.
+Qed.
+
+Lemma lstep_linv rs s l e : linv rs s l -> let '(rs', s', l', _) := lstep rs s l e in linv rs' s' l'.
+Proof.
+  intro H. destruct e; cbn [lstep].
+  - now apply lnext_linv.
+  - destruct rs as [|r rest]; [exact H|]. cbn [linv] in H. pose proof (gstep_hinv r s l GClose H) as G.
+    destruct (gstep r s l GClose) as [[s' l'] o]. destruct G as (G1 & _ & G3). rewrite (G3 ltac:(discriminate)) in G1.
+    cbn [linv]. unfold hinv in G1. tauto.
+  - destruct rs as [|r rest]; [exact H|]. cbn [linv] in H. pose proof (gstep_hinv r s l GDrop H) as G.
+    destruct (gstep r s l GDrop) as [[s' l'] o]. destruct G as (G1 & _ & G3). rewrite (G3 ltac:(discriminate)) in G1.
+    cbn [linv]. unfold hinv in G1. tauto.
+Qed.
+
+Lemma lrun_linv es : forall rs s l, linv rs s l -> let '(rs', s', l') := lrun rs s l es in linv rs' s' l'.
+Proof.
+  induction es as [|e rest IH]; intros rs s l H; cbn [lrun]; [exact H|].
+  pose proof (lstep_linv rs s l e H) as H'. destruct (lstep rs s l e) as [[[rs' s'] l'] o]. now apply IH.
+Qed.
+
+(* C19 for load_files: for every list of locations (each with its number of blocks, its fault
+   position, path or caller stream) and every trace of next / close / drop on the loader: the
+   caller's streams are never closed; at most the one file of the reader the loader is suspended in
+   is held; as soon as the loader has finished - exhausted, closed, dropped or ended by an error in
+   any block of any file - nothing is held *)
+Theorem loader_balanced rs es :
+  let '(rs', s, l) := lrun rs Fresh l0 es in
+  caller_closed l = 0 /\ held l <= 1 /\
+  match rs', s with
+  | r :: _, Suspended _ => held l = (if r_owns r then 1 else 0)
+  | _, _ => held l = 0
+  end.
+Proof.
+  assert (linv rs Fresh l0) as H0 by (destruct rs; unfold linv, hinv, held, l0; cbn; lia).
+  pose proof (lrun_linv es rs Fresh l0 H0) as H. destruct (lrun rs Fresh l0 es) as [[rs' s] l].
+  destruct rs' as [|r rest]; cbn [linv] in H.
+  - destruct H as (C & _ & Hh). repeat split; [exact C|lia|exact Hh].
+  - destruct H as (C & _ & Hh). destruct s; [repeat split; try lia; exact C| |repeat split; try lia; exact C].
+    destruct Hh as (Hh & _). repeat split; [exact C| |exact Hh]. destruct (r_owns r); lia.
+Qed.
+
+(* a terminal event finishes the loader whatever it was doing *)
+Lemma loader_terminal rs s l e : (e = GClose \/ e = GDrop) -> fst (fst (fst (lstep rs s l e))) = [].
+Proof. intros [-> | ->]; cbn [lstep]; destruct rs; try reflexivity; destruct (gstep r s l _) as [[? ?] ?]; reflexivity. Qed.
